@@ -51,6 +51,7 @@ def c17_scenes(rng, thorough):
     add("decompress", [f("d.txt.xz", compress_args=["-1"])], ["-d", "d.txt.xz"], [{"src": "d.txt.xz", "dst": "d.txt", "dir": "d"}])
     add("decompress-T4", [f("m.bin.xz", n=rng.choice([40000, 150000]), compress_args=["-0", "-T2", "--block-size=%d" % blk])], ["-d", "-T4", "m.bin.xz"], [{"src": "m.bin.xz", "dst": "m.bin", "dir": "d"}])
     add("decompress-sparse", [f("s.img.xz", cls="sparse", n=rng.choice([50000, 200000]), compress_args=["-0"])], ["-d", "s.img.xz"], [{"src": "s.img.xz", "dst": "s.img", "dir": "d"}])
+    add("decompress-sparse-tail", [f("h.img.xz", cls="sparse_tail", n=rng.choice([30000, 90000, 200000]), compress_args=["-0"])], ["-d", "h.img.xz"], [{"src": "h.img.xz", "dst": "h.img", "dir": "d"}])
     add("decompress-keep", [f("q.txt.xz", compress_args=["-0"])], ["-dk", "q.txt.xz"], [{"src": "q.txt.xz", "dst": "q.txt", "dir": "d", "keep": True}])
     add("decompress-corrupt", [f("c.txt.xz", n=20000, compress_args=["-0"], corrupt_seed=rng.getrandbits(20) + 1)], ["-d", "c.txt.xz"], [{"src": "c.txt.xz", "dst": "c.txt", "dir": "d", "invalid": True}])
     add("decompress-truncated", [f("t.txt.xz", n=20000, compress_args=["-0"], truncate=rng.choice([0.3, 0.9, 0.99]))], ["-d", "t.txt.xz"], [{"src": "t.txt.xz", "dst": "t.txt", "dir": "d", "invalid": True}])
@@ -299,11 +300,11 @@ def judge_c17(case, res):
 # =====================================================================
 def c18_cases(rng, n, thorough):
     cases = []
-    classes = ["text", "sparse", "random", "zeros", "sparse", "sparse"]
+    classes = ["text", "sparse", "random", "zeros", "sparse", "sparse_tail"]
     for i in range(n):
         cls = rng.choice(classes)
         ln = rng.choice([0, 1, 100, 8191, 8192, 8193, 16384, 30000, 100000, 250000])
-        if cls == "sparse":
+        if cls in ("sparse", "sparse_tail"):
             ln = rng.choice([8192, 16385, 70000, 200000, 400000])
         fmt = rng.choice(["xz", "xz", "xz", "lzma"])
         cargs = [rng.choice(["-0", "-1", "-2"])]
